@@ -243,7 +243,9 @@ Definition do_bal (g : gst) (w : wid) (s : wst) : gst :=
     end
   end.
 
-(* UpdateVolumes: INSERT ... ON CONFLICT (k) DO UPDATE SET input = input + excluded.input ..., rows sorted by account *)
+(* UpdateVolumes: INSERT ... ON CONFLICT (k) DO UPDATE SET input = input + excluded.input ..., rows sorted by account.
+   One statement touches a key once (the postings of a key are aggregated): a row this transaction has already written
+   (v_upd, only possible for its own row) is not written again. *)
 Definition vol_keys (o : cop) : list (ckey * Z) :=
   if ckey_eqb (src_key o) (dst_key o) then [(src_key o, 0)]
   else if String.leb (o_src o) (o_dst o) then [(src_key o, - o_amt o); (dst_key o, o_amt o)]
@@ -258,7 +260,7 @@ Fixpoint vol_loop (g : gst) (w : wid) (ks : list (ckey * Z)) (i : nat) : gst :=
       let row := {| v_key := k; v_bal := 0; v_pend := d; v_lock := Some w; v_new := true; v_upd := true |} in
       vol_loop (set_vols g (g_vols g ++ [row])) w rest (S i)
     | Some x =>
-      let take := vol_loop (set_vols g (vtake (g_vols g) w k (fun x => {| v_key := v_key x; v_bal := v_bal x; v_pend := v_pend x + d; v_lock := Some w; v_new := v_new x; v_upd := true |}))) w rest (S i) in
+      let take := vol_loop (set_vols g (vtake (g_vols g) w k (fun x => {| v_key := v_key x; v_bal := v_bal x; v_pend := if v_upd x then v_pend x else v_pend x + d; v_lock := Some w; v_new := v_new x; v_upd := true |}))) w rest (S i) in
       match v_lock x with
       | Some h => if Nat.eqb h w then take else blocked (upd_w g w (fun s => wset_volk s i)) w h LVol
       | None => take
